@@ -3,13 +3,13 @@ from lib import hexs
 
 MODULE = "DtailModel.Props.C01"
 # translated packages (tie G) this property's theorems rest on
-GEN_UNITS = ("Reader",)
+GEN_UNITS = ("Reader", "Client")
 GROUPS = ["C01"]
 BINS = True
 BUDGET = {"quick": 2400, "thorough": 40000}
 LEVEL_TEXT = ("Lean theorems over all byte strings for the reader / framing / client automata "
               "(C01_reader, C01_partial, C01_full_false ...), tied to the code by regenerated facts and a "
-              "differential run of the real reader, server Read, client Write and the dcat binary; end-to-end inputs also as .gz (one and several members), .gzip and .zst; tie G: readFile.read / handleReadByte / handleReadError of internal/io/fs/readfile.go are translated on every run (the reader is the bytes not yet delivered, sends on rawLines are kept, selects take their default or their only send) and C01_generated_reader_sends_model_lines proves that the translated reader hands the filter exactly readLines m bs for every content; c01.reader runs the translated reader beside the model")
+              "differential run of the real reader, server Read, client Write and the dcat binary; end-to-end inputs also as .gz (one and several members), .gzip and .zst; tie G: readFile.read / handleReadByte / handleReadError of internal/io/fs/readfile.go are translated on every run (the reader is the bytes not yet delivered, sends on rawLines are kept, selects take their default or their only send) and C01_generated_reader_sends_model_lines proves that the translated reader hands the filter exactly readLines m bs for every content; c01.reader runs the translated reader beside the model; likewise the client's baseHandler.Write / handleMessage / handleHiddenMessage of internal/clients/handlers/basehandler.go (C01_generated_client_is_model: the translated Write is the model's clientFeed for every handler state and chunk; C01_generated_client_close_handshake), run by c01.pipe on the pieces the server hands out")
 TRUSTED = ["Lean 4 kernel", "axioms: propext, Quot.sound, Classical.choice (at most)",
            "fact extractor /verif/extract", "overlay harness + dtmodel driver + this diff", "Go->Lean translator (unit Reader) with its prelude GoRT: the environment of the translated reader is fixed (context never cancelled, no truncation check due, the consumer of rawLines takes every line, ReadByte fails only with io.EOF)",
            "modelled not verified: gzip/zstd decoders, bufio, os file I/O, io.Copy 32 KiB buffer, SSH transport, fmt.Print"]
